@@ -183,10 +183,53 @@ def check(ctx):
         ctx.ob("a.readdress", "address-write|%s" % f.name, not bad,
                "the peripheral's address is changed in place without resetting the bring-up state to Offline on every path: " + "; ".join(bad[:2]), f.loc(u["b"], u["i"]))
 
+    check_fresh_diagnostics(ctx, P)
     # ---------------- b: request kind per state --------------------------------------------------
     check_requests(ctx, P)
     # ---------------- c: Set_Prm / Chk_Cfg layout -------------------------------------------------
     check_layout(ctx, P)
+
+
+def check_fresh_diagnostics(ctx, P):
+    """a.edges (freshness): the acknowledgement guards of the bring-up edges read the value returned by handle_diagnostics_response.
+    That value must describe *this* reply: every path returning something other than `None` stores the diagnostics decoded from the
+    telegram in this call (otherwise a short confirmation / foreign reply would be taken for an earlier diagnostics reply)."""
+    f = None
+    for g_ in P.crate_fns(CR):
+        if g_.name.endswith("::handle_diagnostics_response") and g_.module == "dp::peripheral":
+            f = g_
+    if f is None:
+        ctx.ob("anchor", "fn:handle_diagnostics_response", False, "Peripheral::handle_diagnostics_response not found")
+        return
+    ctx.analysed_fns.add(f.name)
+    tb = TermBuilder(f, P)
+    marks = {}
+    nstore = 0
+    for b, i, s in stmts(f):
+        if "a" not in s:
+            continue
+        if has_field(s["a"], "diag"):
+            sv = tb.rvalue(s["rv"])
+            if sv[0] == "agg" and sv[2] == "Some":
+                marks[(b, i)] = "store"
+                nstore += 1
+        if mk_place(s["a"]) == (0, ()):
+            v = tb.rvalue(s["rv"])
+            if not (v[0] == "agg" and v[2] == "None"):
+                marks[(b, i)] = "retsome"
+    for b, c in call_sites(f):
+        if mk_place(c["dest"]) == (0, ()):
+            marks[(b, None)] = "retsome"
+    ctx.anchor("stores of the decoded diagnostics in handle_diagnostics_response", nstore, 1)
+    g = GuardAnalysis(f, P, marks=marks)
+    bad = []
+    for rb in f.return_blocks:
+        for fs in g.at(rb):
+            if g.count_of(fs, "retsome") != {0} and 0 in g.count_of(fs, "store"):
+                bad.append(M.fmt_facts(fs)[:200])
+    ctx.ob("a.edges", "diagnostics-fresh", not bad,
+           "handle_diagnostics_response can return diagnostics that were not decoded from this reply (e.g. for a short confirmation): the "
+           "bring-up guards would be evaluated on stale data: %s" % "; ".join(bad[:1]), f.loc(0))
 
 
 def initial_is_offline(P, val):
